@@ -353,7 +353,7 @@ CONFIG = {
         "extra_modules": ["PatVerif.Proofs.Sig", "PatVerif.Proofs.DER", "PatVerif.Proofs.ScReduce", "PatVerif.Proofs.ScMulAdd", "PatVerif.Proofs.ScScalar",
                           "PatVerif.Proofs.FeCarry", "PatVerif.Proofs.FeMul", "PatVerif.Proofs.FeMisc", "PatVerif.Proofs.FeBytes", "PatVerif.Proofs.FePow",
                           "PatVerif.Proofs.FeAbs", "PatVerif.Proofs.FeField", "PatVerif.Proofs.FeSqrt", "PatVerif.Proofs.EdPoints", "PatVerif.Proofs.EdDecode", "PatVerif.Proofs.SkelEd25519",
-                          "PatVerif.Proofs.PrimeP", "PatVerif.Proofs.FeInv", "PatVerif.Proofs.EdComplete", "PatVerif.Proofs.FeSqrtComplete", "PatVerif.Proofs.EdRefBridge", "PatVerif.Proofs.SkelScalarMult", "PatVerif.Proofs.EdAssoc", "PatVerif.Proofs.ScalarMultAlg", "PatVerif.Proofs.EdGroup", "PatVerif.Proofs.Recode", "PatVerif.Proofs.ScalarMultLit", "PatVerif.Proofs.EdRepr", "PatVerif.Proofs.ScalarMultRefine", "PatVerif.Proofs.ScalarBaseMultRefine", "PatVerif.Proofs.DoubleScalarMultRefine", "PatVerif.Proofs.Clamp", "PatVerif.Props.C14Mult", "PatVerif.Props.C14Gen"],
+                          "PatVerif.Proofs.PrimeP", "PatVerif.Proofs.FeInv", "PatVerif.Proofs.EdComplete", "PatVerif.Proofs.FeSqrtComplete", "PatVerif.Proofs.EdRefBridge", "PatVerif.Proofs.SkelScalarMult", "PatVerif.Proofs.EdAssoc", "PatVerif.Proofs.ScalarMultAlg", "PatVerif.Proofs.EdGroup", "PatVerif.Proofs.Recode", "PatVerif.Proofs.ScalarMultLit", "PatVerif.Proofs.EdRepr", "PatVerif.Proofs.ScalarMultRefine", "PatVerif.Proofs.ScalarBaseMultRefine", "PatVerif.Proofs.DoubleScalarMultRefine", "PatVerif.Proofs.Clamp", "PatVerif.Proofs.ScalarGlue", "PatVerif.Proofs.EdRefGroup", "PatVerif.Props.C14Mult", "PatVerif.Props.C14Gen"],
         "contradicts": "PatVerif.Props.C14, PatVerif.Props.C14Gen, PatVerif.Props.C14Mult",
     },
     "C15": {
@@ -372,7 +372,9 @@ CONFIG = {
                       "proved to compute x•Q in every commutative group: Proofs/ScalarMultAlg, Props/C14Mult); both models are pinned statement by statement "
                       "to scalar.go/scalarmult.go/tables.go on every run and executed against the Go code (c14.dg, c14.sm); the coordinate-changing Go loop itself, "
                       "transcribed over the translated formulas (Model/ScalarMultLit.lean), is proved to return a valid point standing for x•g in the curve "
-                      "group for every scalar and valid point (Proofs/EdRepr, ScalarMultRefine.scalarMult_correct). Not modelled: ModInverse (math/big).",
+                      "group for every scalar and valid point (Proofs/EdRepr, ScalarMultRefine.scalarMult_correct), and composed with the translated SetBytes: "
+                      "for any 32 digest bytes h and valid key A standing for g the result stands for (h mod L)•g (Proofs/ScalarGlue.blind_mult_translated). "
+                      "Not modelled: ModInverse (math/big).",
         "trusted_base": COMMON_TB + ["Mathlib", "PatVerif/Exec/Ed25519"],
         "assumptions": ["A lies in the prime-order subgroup for unblind_blind",
                         "Model/GoInt.lean reads Go's int64 operators correctly where the generated side conditions hold"],
@@ -382,7 +384,7 @@ CONFIG = {
         "extra_modules": ["PatVerif.Proofs.Group", "PatVerif.Proofs.Sig", "PatVerif.Proofs.ScReduce", "PatVerif.Proofs.ScMulAdd", "PatVerif.Proofs.ScScalar",
                           "PatVerif.Proofs.FeCarry", "PatVerif.Proofs.FeMul", "PatVerif.Proofs.FeMisc", "PatVerif.Proofs.FeBytes", "PatVerif.Proofs.FePow",
                           "PatVerif.Proofs.FeAbs", "PatVerif.Proofs.FeField", "PatVerif.Proofs.FeSqrt", "PatVerif.Proofs.EdPoints", "PatVerif.Proofs.EdDecode", "PatVerif.Proofs.SkelEd25519",
-                          "PatVerif.Proofs.PrimeP", "PatVerif.Proofs.FeInv", "PatVerif.Proofs.EdComplete", "PatVerif.Proofs.FeSqrtComplete", "PatVerif.Proofs.EdRefBridge", "PatVerif.Proofs.SkelScalarMult", "PatVerif.Proofs.EdAssoc", "PatVerif.Proofs.ScalarMultAlg", "PatVerif.Proofs.EdGroup", "PatVerif.Proofs.Recode", "PatVerif.Proofs.ScalarMultLit", "PatVerif.Proofs.EdRepr", "PatVerif.Proofs.ScalarMultRefine", "PatVerif.Proofs.ScalarBaseMultRefine", "PatVerif.Proofs.DoubleScalarMultRefine", "PatVerif.Proofs.Clamp", "PatVerif.Props.C14Mult", "PatVerif.Props.C14Gen"],
+                          "PatVerif.Proofs.PrimeP", "PatVerif.Proofs.FeInv", "PatVerif.Proofs.EdComplete", "PatVerif.Proofs.FeSqrtComplete", "PatVerif.Proofs.EdRefBridge", "PatVerif.Proofs.SkelScalarMult", "PatVerif.Proofs.EdAssoc", "PatVerif.Proofs.ScalarMultAlg", "PatVerif.Proofs.EdGroup", "PatVerif.Proofs.Recode", "PatVerif.Proofs.ScalarMultLit", "PatVerif.Proofs.EdRepr", "PatVerif.Proofs.ScalarMultRefine", "PatVerif.Proofs.ScalarBaseMultRefine", "PatVerif.Proofs.DoubleScalarMultRefine", "PatVerif.Proofs.Clamp", "PatVerif.Proofs.ScalarGlue", "PatVerif.Proofs.EdRefGroup", "PatVerif.Props.C14Mult", "PatVerif.Props.C14Gen"],
         "contradicts": "PatVerif.Props.C15",
     },
     "C16": {
